@@ -217,13 +217,13 @@ pub fn test_mpc(base: &MpcCase) -> Result<CaseInfo, Fail> {
 pub fn run(tier: Tier, seed: u64) -> i32 {
     let ctx = Ctx::new("C19", tier, seed, "exploration");
     ctx.set_rule("proptest (model-based): operation sequences of length <= 12 over {append(1..3c), append(c), iter-all, iter-take(k)+drop, chunks(c)-all, chunks-take(k)+drop}, chunk size c in 1..8, element types u64 / authenticated share / pair of shares / garbled gate, applied to the file variant, the memory variant and a Vec model with chunk list: items and order equal in both variants after every step, chunk boundaries equal to the appended chunks whenever all appends but the last have size c, temp directory listing empty after every step and after drop; plus mpc runs (n<=3, incl. >1000 ANDs and >9000 random shares where the two batch sizes of the engine differ) under every per-party tmp_dir assignment: result, traffic shape, empty directories. non-trivial = sequence with an append after a (partial) read / mpc case with AND gates");
-    prop_search(&ctx, "ops", tier.pick(4000, 60_000), gen_ops, test_case);
+    prop_search(&ctx, "ops", tier.pick(4000, 400_000), gen_ops, test_case);
     if !ctx.stopped() {
         let cp = CaseParams { circ: CircParams { n_min: 2, n_max: 3, max_gates: 20, bulk: vec![1001, 2001], bulk_prob: 40, ..Default::default() }, all_scheds: false, caps: vec![0], tmp: false };
         // the batch sizes of random shares and AND shares differ once inputs + ANDs exceed 9000
         let cp9 = CaseParams { circ: CircParams { n_min: 2, n_max: 2, max_gates: 6, max_inputs_per_party: 30, bulk: vec![8990, 9001, 9007, 9500], bulk_prob: 255, ..Default::default() }, all_scheds: false, caps: vec![0], tmp: false };
         prop_search(&ctx, "mpc9000", tier.pick(3, 24), || gen_case(cp9.clone()), test_mpc);
-        prop_search(&ctx, "mpc", tier.pick(24, 200), || gen_case(cp.clone()), test_mpc);
+        prop_search(&ctx, "mpc", tier.pick(24, 600), || gen_case(cp.clone()), test_mpc);
     }
     ctx.finish()
 }
